@@ -44,8 +44,8 @@ CONSTANTS NN, NodeKey, Keys, Sets, MaxH, MaxD, Win, MaxR, MaxLag, MaxBehind, Bas
           HeightBack, KeyQuirk, BugVoteTwice, BugOldSet, BugWrongMsg, BugFewer, BugNoMismatch, BugNoWitness,
           BugKeepForever, StaleSv
 
-VARIABLES top, B, nh, sh, kc, acc, inc, val, vh, sent, nadv, nrst, okstep
-vars == <<top, B, nh, sh, kc, acc, inc, val, vh, sent, nadv, nrst, okstep>>
+VARIABLES top, B, nh, sh, kc, acc, inc, val, vh, sent, nadv, nrst, okstep, pend
+vars == <<top, B, nh, sh, kc, acc, inc, val, vh, sent, nadv, nrst, okstep, pend>>
 
 A == INSTANCE StateSvc
 
@@ -150,7 +150,7 @@ Init ==
     /\ val = [n \in Nodes |-> [h \in Hs |-> None]]
     /\ vh = [n \in Nodes |-> 0]
     /\ sent = {} /\ nadv = 0 /\ nrst = 0
-    /\ okstep = TRUE
+    /\ okstep = TRUE /\ pend = [n \in Nodes |-> FALSE]
 
 \* the history grows by one block; d > 0: the block designates Sets[d] (in force from the next height)
 NewBlock(d) ==
@@ -159,18 +159,20 @@ NewBlock(d) ==
     /\ IF d = 0 THEN B' = B
        ELSE /\ Len(B) - 1 < MaxD /\ Sets[d] # B[Len(B)].keys
             /\ B' = Append(B, [blk |-> top + 1, keys |-> Sets[d]])
-    /\ UNCHANGED <<nh, sh, kc, acc, inc, val, vh, sent, nadv, nrst, okstep>>
+    /\ UNCHANGED <<nh, sh, kc, acc, inc, val, vh, sent, nadv, nrst, okstep, pend>>
 
 DesigIn(b) == {i \in DOMAIN B : B[i].blk = b}
-\* node n stores its next block; native Designation's PostPersist calls UpdateStateValidators(b+1, keys)
+\* node n stores its next block; native Designation's PostPersist calls UpdateStateValidators(from, keys) with the latest
+\* designation if the block made one - or if this is the first block after a start (the native cache was just filled)
 AddBlock(n) ==
     /\ nh[n] < top /\ nh[n] - sh[n] < MaxLag
     /\ LET b == nh[n] + 1 IN
        /\ nh' = [nh EXCEPT ![n] = b]
-       /\ IF DesigIn(b) = {} THEN UNCHANGED <<kc, acc>>
-          ELSE LET ks == B[CHOOSE i \in DesigIn(b) : TRUE].keys IN
-               /\ kc' = [kc EXCEPT ![n] = KcUpdate(@, b + 1, ks)]
-               /\ acc' = [acc EXCEPT ![n] = IF NodeKey[n] = 0 THEN @ ELSE AccFor(n, ks)]
+       /\ IF DesigIn(b) = {} /\ ~pend[n] THEN UNCHANGED <<kc, acc>>
+          ELSE LET e == B[MaxOf({i \in DOMAIN B : B[i].blk <= b})] IN
+               /\ kc' = [kc EXCEPT ![n] = KcUpdate(@, e.blk + 1, e.keys)]
+               /\ acc' = [acc EXCEPT ![n] = IF NodeKey[n] = 0 THEN @ ELSE AccFor(n, e.keys)]
+       /\ pend' = [pend EXCEPT ![n] = FALSE]
     /\ UNCHANGED <<top, B, sh, inc, val, vh, sent, nadv, nrst, okstep>>
 
 Trim(f, h) == IF h - Win >= 1 /\ ~BugKeepForever THEN [f EXCEPT ![h - Win] = None] ELSE f
@@ -194,14 +196,14 @@ SvcBlock(n) ==
                IN  /\ inc' = [inc EXCEPT ![n] = Trim([@ EXCEPT ![h] = ir3], h)]
                    /\ val' = [val EXCEPT ![n] = ts.val] /\ vh' = [vh EXCEPT ![n] = ts.vh]
                    /\ sent' = sent \cup ts.out \cup vote
-    /\ UNCHANGED <<top, B, nh, kc, acc, nadv, nrst, okstep>>
+    /\ UNCHANGED <<top, B, nh, kc, acc, nadv, nrst, okstep, pend>>
 
 \* network.go AddSignature (through OnPayload of a Vote): v = [h, idx, k, ch, cr]
 VoteErr(n, v) ==
     /\ acc[n].ok
     /\ LET ir0 == GetInc(n, v.h) IN v.idx < 0 \/ v.idx >= Len(ir0.sv) \/ (ir0.known /\ ~Verify(v, ir0.sv[v.idx + 1], v.h))
 TakeVote(n, v) ==
-    /\ UNCHANGED okstep
+    /\ UNCHANGED <<okstep, pend>>
     /\ IF ~acc[n].ok
        THEN UNCHANGED <<inc, val, vh, sent>>
        ELSE LET ir0 == GetInc(n, v.h) IN
@@ -231,7 +233,7 @@ TakeRoot(n, p) ==
     /\ val' = [val EXCEPT ![n] = a.val] /\ vh' = [vh EXCEPT ![n] = a.vh]
     /\ inc' = IF a.res \in {"ok", "dup"} /\ inc[n][p.h] # None THEN [inc EXCEPT ![n][p.h].snt = TRUE] ELSE inc
     /\ okstep' = (okstep /\ RootStepOK(n, p, a))
-    /\ UNCHANGED sent
+    /\ UNCHANGED <<sent, pend>>
 
 VoteOf(m) == [h |-> m.h, idx |-> m.idx, k |-> m.k, ch |-> m.ch, cr |-> m.cr]
 \* the network delivers any message ever sent by an honest node to any node (again and again, in any order, or never)
@@ -244,16 +246,16 @@ Deliver(n, m) ==
 Timer(n, h) ==
     /\ WithTimer /\ inc[n][h] # None /\ inc[n][h].known /\ ~inc[n][h].snt /\ inc[n][h].ret >= 0 /\ inc[n][h].ret < MaxR
     /\ inc' = [inc EXCEPT ![n][h].ret = @ + 1]
-    /\ UNCHANGED <<top, B, nh, sh, kc, acc, val, vh, sent, nadv, nrst, okstep>>
+    /\ UNCHANGED <<top, B, nh, sh, kc, acc, val, vh, sent, nadv, nrst, okstep, pend>>
 
-\* clean stop and start: the store keeps validated roots and height; incomplete roots are gone; the key cache starts
-\* from the latest designation only
+\* clean stop and start: the store keeps validated roots and height; incomplete roots are gone; the module's key cache
+\* is EMPTY until the next block is stored (the service's own account is set from the latest designation at once)
 Restart(n) ==
     /\ nrst < MaxRestart /\ nrst' = nrst + 1
-    /\ LET I == {i \in DOMAIN B : B[i].blk <= nh[n]}
-           e == B[MaxOf(I)]
-       IN  /\ kc' = [kc EXCEPT ![n] = <<[height |-> e.blk + 1, keys |-> e.keys]>>]
+    /\ LET e == B[MaxOf({i \in DOMAIN B : B[i].blk <= nh[n]})]
+       IN  /\ kc' = [kc EXCEPT ![n] = <<>>]
            /\ acc' = [acc EXCEPT ![n] = AccFor(n, e.keys)]
+    /\ pend' = [pend EXCEPT ![n] = TRUE]
     /\ inc' = [inc EXCEPT ![n] = [h \in Hs |-> None]]
     /\ sh' = [sh EXCEPT ![n] = nh[n]]
     /\ UNCHANGED <<top, B, nh, val, vh, sent, nadv, okstep>>
